@@ -144,6 +144,9 @@ pub struct Oracle {
     pub expect_deliver: Vec<InMsg>,
     pub in_qos2_pending: Vec<u16>,
     pub owed_acks: Vec<OwedAck>,
+    /// acknowledgements completely written: (kind, id, connection). The client cannot know whether
+    /// they left the machine, so one repetition on a later connection of the same session is allowed.
+    pub sent_acks: Vec<(AckKind, u16, usize)>,
     pub delivered: u32,
     pub rx_size: usize,
     pub cfg_clean_keep: (u16, u32),
@@ -166,6 +169,7 @@ impl Oracle {
             expect_deliver: Vec::new(),
             in_qos2_pending: Vec::new(),
             owed_acks: Vec::new(),
+            sent_acks: Vec::new(),
             delivered: 0,
             rx_size,
             cfg_clean_keep: (0, 0),
@@ -198,6 +202,7 @@ impl Oracle {
         self.expect_deliver.hash(h);
         self.in_qos2_pending.hash(h);
         self.owed_acks.hash(h);
+        self.sent_acks.hash(h);
         // violations already found do not influence future ones, but two paths that differ in what
         // was found must not be merged before the finding is reported: it is reported immediately.
     }
@@ -344,7 +349,17 @@ impl Oracle {
             return; // accumulate mode: judged when bytes are accepted
         }
         // at a packet boundary: the offer must start with one whole well-formed packet
-        match mr::decode_client(buf) {
+        let (decoded, tolerated) = decode_lenient(buf);
+        if let Some((class, why)) = tolerated {
+            let ty = buf[0] >> 4;
+            self.flag(
+                "C01",
+                "W3-malformed",
+                &format!("type{}-{:?}-{}", ty, class, why.replace(' ', "_")),
+                format!("offered packet {} is malformed: {}", mr::hex(buf), why),
+            );
+        }
+        match decoded {
             Ok((pkt, len)) => {
                 if len != buf.len() {
                     // more than one packet in one buffer is legal; judge on accepted bytes
@@ -380,7 +395,7 @@ impl Oracle {
             if self.conns[c].cur_off >= cur.len() {
                 self.conns[c].cur = None;
                 self.conns[c].cur_off = 0;
-                if let Ok((pkt, _)) = mr::decode_client(&cur) {
+                if let (Ok((pkt, _)), _) = decode_lenient(&cur) {
                     self.packet_completed(c, &pkt, &cur);
                     out.push((pkt, cur));
                 }
@@ -393,7 +408,7 @@ impl Oracle {
             if acc.is_empty() {
                 break;
             }
-            match mr::decode_client(&acc) {
+            match decode_lenient(&acc).0 {
                 Ok((pkt, len)) => {
                     let raw = acc[..len].to_vec();
                     self.conns[c].acc.drain(..len);
@@ -630,11 +645,9 @@ impl Oracle {
                         want[0] |= 0x08;
                     }
                 }
-                let same = if is_pub {
-                    raw.len() == want.len() && raw[1..] == want[1..] && (raw[0] | 0x08) == (want[0] | 0x08)
-                } else {
-                    raw == &want[..]
-                };
+                // bit 3 of the first byte (DUP) is excluded from the comparison for every kind; whether it
+                // is legal there is the wire monitor's business (C01)
+                let same = raw.len() == want.len() && raw[1..] == want[1..] && (raw[0] | 0x08) == (want[0] | 0x08);
                 if !same {
                     let prop = match kind {
                         ReqKind::Pub1 => "C02",
@@ -744,8 +757,26 @@ impl Oracle {
 
     fn client_ack_started(&mut self, c: usize, kind: AckKind, pid: u16, reason: u8) {
         // C04 I2 / I4: acks must be owed, in order, per kind
-        let pos = self.owed_acks.iter().position(|o| o.kind == kind && o.pid == pid);
+        // prefer what is owed on this connection; acknowledgements owed from an earlier connection of
+        // the same session are optional (the broker retransmits, which makes them owed here again)
+        let pos = self
+            .owed_acks
+            .iter()
+            .position(|o| o.kind == kind && o.pid == pid && o.conn == c)
+            .or_else(|| self.owed_acks.iter().position(|o| o.kind == kind && o.pid == pid));
         match pos {
+            None if self
+                .sent_acks
+                .iter()
+                .any(|(k, p, conn)| *k == kind && *p == pid && *conn < c) =>
+            {
+                let i = self
+                    .sent_acks
+                    .iter()
+                    .position(|(k, p, conn)| *k == kind && *p == pid && *conn < c)
+                    .unwrap();
+                self.sent_acks.remove(i);
+            }
             None => {
                 self.flag(
                     "C04",
@@ -821,18 +852,20 @@ impl Oracle {
                     if self.conns[c].b_inflight > rm {
                         let excess = self.conns[c].b_inflight - rm;
                         let ctx = if self.conns[c].b_rec_wait >= excess {
-                            "awaiting-pubcomp"
-                        } else if self.conns[c].b_replayed_unacked >= excess && !replayed {
-                            "new-publish-after-resume"
-                        } else if self.conns[c].b_rec_wait + self.conns[c].b_replayed_unacked >= excess && !replayed {
-                            "awaiting-pubcomp-and-resume"
+                            "awaiting-pubcomp".to_string()
+                        } else if self.conns[c].b_replayed_unacked > 0 {
+                            format!(
+                                "{}{}",
+                                if replayed { "replay-ignores-window" } else { "new-publish-after-resume" },
+                                if self.conns[c].b_rec_wait > 0 { "+awaiting-pubcomp" } else { "" }
+                            )
                         } else {
-                            "other"
+                            "other".to_string()
                         };
                         self.flag(
                             "C06",
                             "M1-receive-maximum",
-                            ctx,
+                            &ctx,
                             format!(
                                 "{} unresolved PUBLISH packets on connection {} with Receive Maximum {} (awaiting PUBCOMP {}, replayed unacked {})",
                                 self.conns[c].b_inflight, c, rm, self.conns[c].b_rec_wait, self.conns[c].b_replayed_unacked
@@ -892,8 +925,14 @@ impl Oracle {
                 }
             }
             CPacket::Ack(a) => {
-                if let Some(p) = self.owed_acks.iter().position(|o| o.kind == a.kind && o.pid == a.pid) {
+                let pos = self
+                    .owed_acks
+                    .iter()
+                    .position(|o| o.kind == a.kind && o.pid == a.pid && o.conn == c)
+                    .or_else(|| self.owed_acks.iter().position(|o| o.kind == a.kind && o.pid == a.pid));
+                if let Some(p) = pos {
                     self.owed_acks.remove(p);
+                    self.sent_acks.push((a.kind, a.pid, c));
                 }
             }
             _ => {}
@@ -971,6 +1010,7 @@ impl Oracle {
                         self.epoch += 1;
                         self.in_qos2_pending.clear();
                         self.owed_acks.clear();
+                        self.sent_acks.clear();
                     }
                     if !bad {
                         self.connack_ok_seen = true;
@@ -1155,6 +1195,11 @@ impl Oracle {
         }
     }
 
+    /// Acknowledgements the client must still send on connection `c`.
+    pub fn owed_on(&self, c: usize) -> Vec<OwedAck> {
+        self.owed_acks.iter().filter(|o| o.conn == c).cloned().collect()
+    }
+
     pub fn expected_status(&self, seq: u8, handle_epoch: u32) -> Status {
         if handle_epoch != self.epoch {
             Status::Invalidated
@@ -1163,6 +1208,20 @@ impl Oracle {
         } else {
             Status::Pending
         }
+    }
+}
+
+/// Decode a client packet; a SUBSCRIBE/UNSUBSCRIBE whose only defect is the DUP bit in the
+/// reserved flags is reported (second value) but then decoded as if the flags were legal, so that
+/// the rest of the execution stays interpretable.
+pub fn decode_lenient(buf: &[u8]) -> (Result<(CPacket, usize), Bad>, Option<(mr::MalClass, &'static str)>) {
+    match mr::decode_client(buf) {
+        Err(Bad::Malformed(mr::MalClass::BadFlags, why)) if matches!(buf[0], 0x8A | 0xAA) => {
+            let mut fixed = buf.to_vec();
+            fixed[0] &= !0x08;
+            (mr::decode_client(&fixed), Some((mr::MalClass::BadFlags, why)))
+        }
+        other => (other, None),
     }
 }
 
